@@ -20,20 +20,38 @@ TermCount ==
 G_Smooth   == {}
 G_PostPre  == {<<"post", "shock", "pre">>}
 
-Row(eos, pde, res, regs, gram, vac) ==
-  [eos |-> eos, pde |-> pde, res |-> res, regions |-> regs, grammar |-> gram, vacuum |-> vac]
+G_Riemann  == {<<"L", "shock", "Ls">>, <<"L", "cont", "fanL">>, <<"fanL", "cont", "Ls">>,
+               <<"Ls", "contact", "Rs">>,
+               <<"Rs", "shock", "R">>, <<"Rs", "cont", "fanR">>, <<"fanR", "cont", "R">>}
+R_Riemann  == {"L", "fanL", "Ls", "Rs", "fanR", "R"}
+
+(* final: regions in which a complete scan may end ({} = anywhere) *)
+RowF(eos, pde, res, regs, gram, vac, fin) ==
+  [eos |-> eos, pde |-> pde, res |-> res, regions |-> regs, grammar |-> gram, vacuum |-> vac, final |-> fin]
+Row(eos, pde, res, regs, gram, vac) == RowF(eos, pde, res, regs, gram, vac, {})
+
+(* which side's gamma applies in a region of a two-gamma problem *)
+SideOf(reg) == IF reg \in {"L", "fanL", "Ls"} THEN "l" ELSE "r"
+(* direction of variation with increasing x inside a rarefaction fan:   *)
+(* +1 increasing, -1 decreasing (pressure and density fall towards the  *)
+(* star state; velocity rises across both fans of an expansion)         *)
+FanDir == [fanL |-> [p |-> -1, rho |-> -1, u |-> 1],
+           fanR |-> [p |-> 1,  rho |-> 1,  u |-> 1]]
 
 CogNone == {"Cog1", "Cog2", "Cog3", "Cog4", "Cog5", "Cog6", "Cog7"}
 CogDiv  == {"Cog8", "Cog9", "Cog11", "Cog12", "Cog18"}
 CogFull == {"Cog10", "Cog13", "Cog14", "Cog16", "Cog17"}
 CogShock == {"Cog19", "Cog20", "Cog21"}
 
-Families == {"Noh", "Noh2", "Noh2Cog"} \cup CogNone \cup CogDiv \cup CogFull \cup CogShock
+RiemannFams == {"RiemannIG", "RiemannGen"}
+Families == {"Noh", "Noh2", "Noh2Cog"} \cup RiemannFams \cup CogNone \cup CogDiv \cup CogFull \cup CogShock
 
 Cat == [f \in Families |->
   CASE f = "Noh"        -> Row("gamma", "euler",   "closed", {"post", "pre"}, G_PostPre, FALSE)
     [] f \in {"Noh2", "Noh2Cog"}
                         -> Row("gamma", "euler",   "closed", {"all"}, G_Smooth, FALSE)
+    [] f = "RiemannIG"  -> RowF("gamma2", "euler", "closed", R_Riemann, G_Riemann, FALSE, {"R"})
+    [] f = "RiemannGen" -> RowF("gamma2", "euler", "table",  R_Riemann, G_Riemann, FALSE, {"R"})
     [] f \in CogNone    -> Row("cog",   "cognone", "closed", {"all"}, G_Smooth, FALSE)
     [] f \in CogDiv     -> Row("cog",   "cogdiv",  "closed", {"all"}, G_Smooth, FALSE)
     [] f \in CogFull    -> Row("cog",   "cogfull", "closed", {"all"}, G_Smooth, FALSE)
